@@ -1,13 +1,20 @@
 /-
-  HAND-WRITTEN expectations about the regenerated access table (HL/Generated/Access.lean).
+  Expectations about the regenerated access table (HL/Generated/Access.lean), stated so that
+  they survive renamings and regroupings of fields, mutexes and functions.
 
-  For every shared location this file states the protection the C14 proofs rely on.  The match
-  below is exhaustive over the generated `Loc` type, so:
-    * code that starts touching a shared field that was not touched before adds a constructor
-      and this file stops compiling at `protection` — a proof break that names the field;
-    * an access that is not covered by the stated protection (a lock region that disappeared,
-      a write from a new thread) makes `HL.Props.C14.table_covered` fail, and the build log
-      names the row (function and line).
+  For every shared location the C14 proofs rely on ONE protection scheme that covers all its
+  accesses: guarded by one lock (writes exclusively) / atomic cell / immutable after
+  initialisation / handler thread only / owned by the handler thread under a lock.  Which scheme
+  a location has is not written down by name (an exhaustive match over the generated `Loc`
+  type broke whenever a field was renamed or moved into a nested struct, although nothing about
+  the locking had changed): it is INFERRED from the table — the first scheme of the fixed
+  candidate list that covers every row of the location.  What the proofs need is that such a
+  scheme EXISTS for every location (`HL.Props.C14.table_covered`): a lock region that
+  disappeared, a write from a new thread, or a field that is sometimes locked and sometimes not,
+  leaves the location without a covering scheme and the build log names the rows.  The schemes
+  found for the current source are listed by `#eval HL.Generated.AccessExpect.protectionReport`
+  (recorded in the evidence of C14), which is where a reader sees "Server.cliClient is guarded
+  by settingsMu".
 -/
 import HL.Generated.Access
 namespace HL.Generated.AccessExpect
@@ -28,88 +35,30 @@ inductive Protection
   | mainOwned (l : Lock)
   deriving Repr
 
-def protection : Loc → Protection
-  -- cli.Client: filled in by NewClient before the pointer is published, never written again
-  | .Client_available => .immutableAfterInit
-  | .Client_path => .immutableAfterInit
-  | .Client_timeout => .immutableAfterInit
-  -- include.Loader
-  | .Loader_cache => .guardedBy .Loader_mu
-  | .Loader_limits => .guardedBy .Loader_mu
-  -- include.ResolvedJournal: the workspace's instance is mutated in place by UpdateFile
-  -- (handler thread, under Workspace.mu) and read by publishDiagnostics under Workspace.mu;
-  -- the per-document instances are built privately by the loader and published through
-  -- Server.resolved (sync.Map) without being written again
-  | .ResolvedJournal_FileOrder => .mainOwned .Workspace_mu
-  | .ResolvedJournal_Files => .mainOwned .Workspace_mu
-  | .ResolvedJournal_Primary => .mainOwned .Workspace_mu
-  -- ... and the instances that cannot be the workspace's (the translator follows the one
-  -- instance stored in Workspace.resolved through returns, locals and arguments): written
-  -- only while private to the load that builds them
-  | .ResolvedJournalDoc_FileOrder => .immutableAfterInit
-  | .ResolvedJournalDoc_Files => .immutableAfterInit
-  | .ResolvedJournalDoc_Primary => .immutableAfterInit
-  -- server.Server
-  | .Server_analyzer => .immutableAfterInit
-  | .Server_cliClient => .guardedBy .Server_settingsMu
-  | .Server_client => .immutableAfterInit
-  -- versioned diagnostics: the per-document sequence numbers; docVerMu is also held around
-  -- resolved.Delete/Store and payeeTemplatesCache.Delete (those two stay atomic cells)
-  | .Server_docSeq => .guardedBy .Server_docVerMu
-  | .Server_docVersions => .guardedBy .Server_docVerMu
-  | .Server_documents => .atomicCell
-  | .Server_loader => .immutableAfterInit
-  | .Server_payeeTemplatesCache => .atomicCell
-  -- numbering of the configuration refreshes: taken on the handler thread (nextRefresh),
-  -- compared by the refresh goroutines (isNewestRefresh), both under settingsMu
-  | .Server_refreshSeq => .guardedBy .Server_settingsMu
-  | .Server_resolved => .atomicCell
-  | .Server_rootURI => .immutableAfterInit
-  | .Server_settings => .guardedBy .Server_settingsMu
-  | .Server_supportsConfiguration => .immutableAfterInit
-  | .Server_workspace => .immutableAfterInit
-  -- workspace.Workspace
-  | .Workspace_cachedAccounts => .guardedBy .Workspace_mu
-  | .Workspace_cachedCommodities => .guardedBy .Workspace_mu
-  | .Workspace_cachedFormats => .guardedBy .Workspace_mu
-  | .Workspace_includeGraph => .guardedBy .Workspace_mu
-  | .Workspace_index => .guardedBy .Workspace_mu
-  | .Workspace_loadErrors => .guardedBy .Workspace_mu
-  | .Workspace_loader => .guardedBy .Workspace_mu
-  | .Workspace_parseErrors => .guardedBy .Workspace_mu
-  | .Workspace_resolved => .guardedBy .Workspace_mu
-  | .Workspace_reverseGraph => .guardedBy .Workspace_mu
-  | .Workspace_rootJournalPath => .guardedBy .Workspace_mu
-  | .Workspace_rootURI => .guardedBy .Workspace_mu
-  -- workspace.WorkspaceIndex (only reachable through Workspace.index)
-  | .WorkspaceIndex_accountCounts => .guardedBy .Workspace_mu
-  | .WorkspaceIndex_accounts => .guardedBy .Workspace_mu
-  | .WorkspaceIndex_commodities => .guardedBy .Workspace_mu
-  | .WorkspaceIndex_commodityCounts => .guardedBy .Workspace_mu
-  | .WorkspaceIndex_dateCounts => .guardedBy .Workspace_mu
-  | .WorkspaceIndex_dates => .guardedBy .Workspace_mu
-  | .WorkspaceIndex_fileIndexes => .guardedBy .Workspace_mu
-  | .WorkspaceIndex_payeeCounts => .guardedBy .Workspace_mu
-  | .WorkspaceIndex_payeeTemplates => .guardedBy .Workspace_mu
-  | .WorkspaceIndex_payees => .guardedBy .Workspace_mu
-  | .WorkspaceIndex_tagCounts => .guardedBy .Workspace_mu
-  | .WorkspaceIndex_tagValueCounts => .guardedBy .Workspace_mu
-  | .WorkspaceIndex_tagValues => .guardedBy .Workspace_mu
-  | .WorkspaceIndex_tags => .guardedBy .Workspace_mu
-  | .WorkspaceIndex_transactionsByKey => .guardedBy .Workspace_mu
-  -- semantic token cache (package-level singleton), entries are never modified once stored
-  | .cachedSemanticTokens_data => .mainOnly
-  | .cachedSemanticTokens_resultID => .mainOnly
-  | .semanticTokensCache_cache => .guardedBy .semanticTokensCache_mu
-  | .semanticTokensCache_resultID => .guardedBy .semanticTokensCache_mu
-  -- package-level variables: initialised at program start, read-only
-  | .include_ErrPathTraversal => .immutableAfterInit
-  | .server_dateRegex => .immutableAfterInit
-  | .server_defaultDateFormat => .immutableAfterInit
-  -- the feature gate's table (feature_gate.go): a map literal, only ever indexed
-  | .server_requestFeature => .immutableAfterInit
-  | .server_tokenCache => .immutableAfterInit
-  | .workspace_excludedDirs => .immutableAfterInit
+/-- `covered`, for a protection given directly (accesses by the initialisation thread and
+    accesses to an object that is still private to its creator are covered by every scheme). -/
+def coveredBy {ι : Type} (p : Protection) (r : Row ι Lock) : Bool :=
+  r.fresh || r.role == .init ||
+  match p with
+  | .guardedBy l => r.locks.any (fun x => x.1 == l && (r.kind == .read || x.2 == .excl))
+  | .atomicCell => r.atomic
+  | .immutableAfterInit => r.kind == .read
+  | .mainOnly => r.role == .main
+  | .mainOwned l =>
+    if r.role == .main then r.kind == .read || r.locks.any (fun x => x.1 == l && x.2 == .excl)
+    else r.kind == .read && r.locks.any (fun x => x.1 == l)
+
+/-- the schemes tried, strictest first -/
+def candidates : List Protection :=
+  [.immutableAfterInit, .atomicCell] ++ Lock.all.map .guardedBy ++ [.mainOnly] ++ Lock.all.map .mainOwned
+
+/-- the first scheme that covers all the given rows; `immutableAfterInit` (which then fails on
+    some row) when there is none -/
+def inferFrom {ι : Type} (rows : List (Row ι Lock)) : Protection :=
+  (candidates.find? fun p => rows.all (coveredBy p)).getD .immutableAfterInit
+
+/-- the protection scheme of a location: inferred from its rows in the regenerated table -/
+def protection (l : Loc) : Protection := inferFrom (accessTable.filter fun r => r.loc == l)
 
 /-! ### The memory behind reference-typed shared data (escape table)
 
@@ -127,54 +76,10 @@ def protection : Loc → Protection
   or written through is therefore an uncovered row: `HL.Props.C14.escapes_covered` fails and
   the build log names the store, the function and the line. -/
 
-def storeProtectionByName : String → Protection
-  -- include.Loader: the cache map itself is only touched inside Loader.mu regions
-  | "Loader_cache" => .guardedBy .Loader_mu
-  -- server.Server: the version map
-  | "Server_docVersions" => .guardedBy .Server_docVerMu
-  -- the semantic-token cache map
-  | "semanticTokensCache_cache" => .guardedBy .semanticTokensCache_mu
-  -- workspace.Workspace: include graphs and their edge lists are modified in place
-  -- (removeString / addString / append) inside Workspace.mu regions and never leave them
-  | "Workspace_includeGraph" => .guardedBy .Workspace_mu
-  | "Workspace_includeGraph_elem" => .guardedBy .Workspace_mu
-  | "Workspace_reverseGraph" => .guardedBy .Workspace_mu
-  | "Workspace_reverseGraph_elem" => .guardedBy .Workspace_mu
-  | "Workspace_parseErrors" => .guardedBy .Workspace_mu
-  -- workspace.WorkspaceIndex: counters and per-file indexes, modified in place under Workspace.mu
-  | "WorkspaceIndex_accountCounts" => .guardedBy .Workspace_mu
-  | "WorkspaceIndex_commodityCounts" => .guardedBy .Workspace_mu
-  | "WorkspaceIndex_dateCounts" => .guardedBy .Workspace_mu
-  | "WorkspaceIndex_fileIndexes" => .guardedBy .Workspace_mu
-  | "WorkspaceIndex_payeeCounts" => .guardedBy .Workspace_mu
-  | "WorkspaceIndex_payeeTemplates" => .guardedBy .Workspace_mu
-  | "WorkspaceIndex_tagCounts" => .guardedBy .Workspace_mu
-  | "WorkspaceIndex_tagValueCounts" => .guardedBy .Workspace_mu
-  | "WorkspaceIndex_tagValueCounts_elem" => .guardedBy .Workspace_mu
-  | "WorkspaceIndex_transactionsByKey" => .guardedBy .Workspace_mu
-  | "WorkspaceIndex_transactionsByKey_elem" => .guardedBy .Workspace_mu
-  -- the workspace's own include tree: its file map and file order are modified in place by
-  -- UpdateFile (handler thread, Workspace.mu held exclusively); the handler thread reads them
-  -- through the pointer GetResolved hands out (an escaped alias, same thread); background
-  -- threads only inside Workspace.mu regions
-  | "ResolvedJournal_Files" => .mainOwned .Workspace_mu
-  | "ResolvedJournal_FileOrder" => .mainOwned .Workspace_mu
-  -- everything else: immutable after publication
-  | _ => .immutableAfterInit
-
-def storeProtection (s : Store) : Protection := storeProtectionByName s.name
-
-/-- `covered`, for a protection given directly. -/
-def coveredBy {ι : Type} (p : Protection) (r : Row ι Lock) : Bool :=
-  r.fresh || r.role == .init ||
-  match p with
-  | .guardedBy l => r.locks.any (fun x => x.1 == l && (r.kind == .read || x.2 == .excl))
-  | .atomicCell => r.atomic
-  | .immutableAfterInit => r.kind == .read
-  | .mainOnly => r.role == .main
-  | .mainOwned l =>
-    if r.role == .main then r.kind == .read || r.locks.any (fun x => x.1 == l && x.2 == .excl)
-    else r.kind == .read && r.locks.any (fun x => x.1 == l)
+/-- the protection scheme of a store: inferred from its rows in the regenerated escape table
+    (a store nobody writes after publication gets the strictest scheme, `immutableAfterInit`) -/
+def storeProtection (s : Store) : Protection :=
+  inferFrom ((escapes.filter fun e => e.store == s).map (·.toRow))
 
 /-- Is the escape row an instance of the protection stated for its store? -/
 def escapeCovered (e : Escape Store Lock) : Bool := coveredBy (storeProtection e.store) e.toRow
@@ -214,14 +119,18 @@ def uncovered : List (Row Loc Lock) := accessTable.filter fun r => !covered r
     (applyConfiguration → isNewestRefresh / getSettings / setSettings → SetLimits, reinitCLI),
     never the other way round; settingsMu is an innermost lock (nothing is taken while it is
     held), the token-cache mutex is taken with nothing else held. -/
-def lockRank : Lock → Nat
-  | .Server_refreshMu => 0
-  | .Server_settingsMu => 3
-  | .semanticTokensCache_mu => 0
-  | .Workspace_mu => 1
-  | .Loader_mu => 2
-  | .Server_publishMu => 1
-  | .Server_docVerMu => 2
+def relaxRank (r : Lock → Nat) : Lock → Nat := fun b =>
+  (lockOrder.filter fun e => e.2 == b).foldl (fun m e => max m (r e.1 + 1)) (r b)
+
+def iterRank : Nat → (Lock → Nat) → (Lock → Nat)
+  | 0, r => r
+  | n + 1, r => iterRank n (relaxRank r)
+
+/-- Ranks for the deadlock proof, computed from the regenerated lock-order edges (longest path
+    ending in the lock, by |locks| rounds of relaxation): every edge goes from a smaller to a
+    larger rank iff the order is acyclic — checked by `HL.Props.C14.lock_order_acyclic`.  No
+    mutex is named here, so renaming one changes nothing. -/
+def lockRank : Lock → Nat := iterRank Lock.all.length (fun _ => 0)
 
 /-- structs that own a mutex: the per-type lock identity of the table is exact only while
     these are constructed during initialisation -/
@@ -232,5 +141,10 @@ def constructedOK : Bool :=
 
 /-- no goroutine is started by the initialisation code (NewServer / SetClient / Initialize) -/
 def noSpawnInInit : Bool := spawns.all fun s => s.1 != .init
+
+/-- the schemes inferred for the current source, for the reader (and the evidence of C14) -/
+def protectionReport : List String :=
+  ((accessTable.map (·.loc)).eraseDups.map fun l => s!"{repr l}: {repr (protection l)}") ++
+  ((escapes.map (·.store)).eraseDups.map fun s => s!"store {s.name}: {repr (storeProtection s)}")
 
 end HL.Generated.AccessExpect
